@@ -6,13 +6,15 @@
 DIR=$(dirname "$(readlink -f "$0")")
 RUNS=${RUNS:-3000}
 PROPS=${PROPS:-"C01 C08 C10 C12 C15 C17 C18 C19 C20 C16 C04"}
-# (the binary is rebuilt from /repo's working tree first: the last build may have been made
+# (unless HQSIM_BIN names a binary to test, the binary is rebuilt from /repo's working tree first: the last build may have been made
 # against a tree with a seeded change applied)
+if [ -z "${HQSIM_BIN:-}" ]; then
 (cd "$DIR/hqsim" && CARGO_NET_OFFLINE=true CARGO_TARGET_DIR="$DIR/target" cargo build --profile sim --offline >"$DIR/.build.log" 2>&1) || { echo "build failed (see $DIR/.build.log)"; exit 2; }
+fi
 OUT=$(mktemp -d /tmp/hqsim-selftest.XXXXXX)
 cp "$DIR/known_findings.txt" "$OUT/"
 # private copy of the binary: checks of seeded changes rebuild $DIR/target/sim/hqsim in place
-cp "$DIR/target/sim/hqsim" "$OUT/hqsim"
+cp "${HQSIM_BIN:-$DIR/target/sim/hqsim}" "$OUT/hqsim"
 fail=0
 for p in $PROPS; do
   d=()
